@@ -15,6 +15,8 @@ import (
 // ---- C17: proxy hygiene ---------------------------------------------------------
 
 type C17Case struct {
+	// BadDialled: the bad peer's connection was dialled on demand by the proxy instead of being attached with AddClient
+	BadDialled bool `json:"bad_dialled,omitempty"`
 	// SpoofRoute: what the spoofed envelope carries in its route record / return route (sender-controlled fields)
 	SpoofRoute string `json:"spoof_route,omitempty"`
 	// DeafRead: the bad peer's transport ignores the context passed to Read (as a net.Conn without deadlines does)
@@ -39,6 +41,7 @@ func genC17(t *rapid.T) C17Case {
 	c := C17Case{Mode: rapid.SampledFrom([]string{"spoof", "badpeer", "reattach", "cancel", "attach-race"}).Draw(t, "mode"), Ser: rapid.Bool().Draw(t, "ser")}
 	c.ErrKind = rapid.SampledFrom(kit.FaultErrKinds).Draw(t, "err_kind")
 	c.DeafRead = rapid.Bool().Draw(t, "deaf_read")
+	c.BadDialled = rapid.Bool().Draw(t, "bad_dialled")
 	c.SpoofRoute = rapid.SampledFrom([]string{"", "", "record-own", "record-victim-own", "record-proxy", "next-own"}).Draw(t, "spoof_route")
 	c.Spoof = rapid.SampledFrom([]string{"other-source", "empty-source", "no-header", "unattached-source"}).Draw(t, "spoof")
 	c.Role = rapid.SampledFrom([]string{"stuck-writer", "failing-reader", "failing-writer", "dial-error", "slow-dial", "slow-failing-dial", "both-fail-busy"}).Draw(t, "role")
@@ -152,6 +155,25 @@ func execC17(t *testing.T, c C17Case) (v Verdict) {
 				w.deaf = map[string]bool{"bad": true}
 				w.mu.Unlock()
 			}
+			// the bad peer's connection: attached by the peer, or dialled by the proxy for a first envelope
+			badPeer := func() *kit.Link {
+				if !c.BadDialled {
+					return w.attach("bad")
+				}
+				w.mu.Lock()
+				w.dialable["bad"] = true
+				w.mu.Unlock()
+				_ = c0.A.Write(bg, pxEnv("c0", "bad", 499))
+				kit.Settle()
+				w.mu.Lock()
+				w.dialable["bad"] = false // a later dial (after the failure) is refused, like for an attached peer
+				w.mu.Unlock()
+				bl := w.link("bad")
+				if bl != nil {
+					bl.A.ReadAvailable()
+				}
+				return bl
+			}
 			switch c.Role {
 			case "stuck-writer":
 				bad := w.attach("bad")
@@ -160,12 +182,12 @@ func execC17(t *testing.T, c C17Case) (v Verdict) {
 					_ = c0.A.Write(bg, pxEnv("c0", "bad", 500+i))
 				}
 			case "failing-reader":
-				bad := w.attach("bad")
+				bad := badPeer()
 				kit.Settle()
 				bad.B.FailReads(nil)
 				kit.Settle()
 			case "failing-writer":
-				bad := w.attach("bad")
+				bad := badPeer()
 				bad.B.FailWrites(nil)
 				_ = c0.A.Write(bg, pxEnv("c0", "bad", 500))
 				kit.Settle()
@@ -368,7 +390,7 @@ func execC17(t *testing.T, c C17Case) (v Verdict) {
 	}
 	labels = append(labels, label)
 	if c.Mode == "badpeer" {
-		labels = append(labels, fmt.Sprintf("badpeer.deaf_read=%v", c.DeafRead))
+		labels = append(labels, fmt.Sprintf("badpeer.deaf_read=%v", c.DeafRead), fmt.Sprintf("badpeer.dialled=%v", c.BadDialled))
 	}
 	v.Info = kit.CaseInfo{Labels: labels, NonTrivial: true, Key: fmt.Sprintf("%+v", c), Sample: c}
 	return
